@@ -137,7 +137,7 @@ def PyValueError(msg):
 
 def series_ctor(interp, data=None, **kw):
     from .lib import _arr
-    return _series(_arr(data, interp))
+    return _series(A.copy(_arr(data, interp)))      # pandas 3 (copy-on-write): the constructor copies a numpy array
 
 
 def df_attr(interp, df, name):
@@ -199,7 +199,9 @@ def df_getitem(interp, df, key):
         return new_df({k: c["cols"][k] for k in names}, names, c["n"])
     k = interp.dict_key(key)
     if isinstance(k, (str, int)) and k in c["cols"]:
-        return _series(c["cols"][k], k)
+        # copy-on-write: the Series keeps the values the column has NOW (a later df[k] op= v does not reach it, nor does a
+        # store through the Series reach the frame)
+        return _series(A.copy(c["cols"][k]), k)
     raise interp_keyerror(key)
 
 
@@ -283,6 +285,8 @@ def df_method(interp, df, meth, args, kwargs):
     from .lib import SeriesVal
     c = df_content(df)
     if meth == "to_csv":
+        if kwargs.get("index", True) is not False:
+            raise EngineError("DataFrame.to_csv with the index column (only index=False is modelled)")
         path = args[0] if args else kwargs.get("path_or_buf")
         snap = {k: A.copy(v) for k, v in c["cols"].items()}
         cur().trace.append(("to_csv", path, snap, list(c["order"]), kwargs.get("float_format"), c["n"], cur().where))
